@@ -26,6 +26,9 @@ func main() {
 	case "gen":
 		// harness gen <family> <tier> <seed> <workdir> <govalid binary> <repo>
 		genMain(os.Args[2:])
+	case "mig":
+		// harness mig <tier> <seed> <workdir> <govalid> <repo>
+		migMain(os.Args[2:])
 	case "rec-one":
 		// harness rec-one <fn> <hex>
 		recOne(os.Args[2], os.Args[3])
